@@ -1022,6 +1022,8 @@ def check_c07(tier, seed, log=print):
     report_tie(run, r, bad_defs, covered=fails)
     run.coverage['partial_certificates'] = certp
     run.coverage['emitted_prefix_guard_vs_graph'] = emit_pass(run, r, 'C07', log)
+    from props_lib import partial_api_histories
+    run.coverage['partial_mode_through_api'] = partial_api_histories(run, tier, log)
     run.coverage.update(dict(evaluations=n, distinct_nontrivial=len(nontriv),
                              rule='for sampled inputs S of every accepted definition and every split point k: Lexer::new_partial over S[..k] vs the one-shot lexing of S by the same compiled lexer '
                                   '(leading run, empty span at None, position between committed end and next start), and vs the Lean reference partial lexer specLexP for look-free definitions; non-trivial = at least one item committed before a proper split',
